@@ -73,6 +73,23 @@ PROPS = {
         "level_text": "Exploration of schedules and inputs: hundreds of thousands of real parallel pivot searches with injected delays at the race window (between candidate choice and the write lock), herding of workers and 1..16 threads; the monitor observes thousands of retries and stale-snapshot commits per run, checks every commit against all earlier ones and the final list against the triangularity definition. Right level: the property quantifies over schedules, which only executions under perturbation can sample.",
         "level_note": "Schedules are sampled, not enumerated; the hook callback adds delays only at the library's own schedule points. Trusts the own DFS acyclicity check.",
     },
+    "C12": {
+        "budget_s": {"quick": 120, "thorough": 1800},
+        "floor": {"quick": 20000, "thorough": 400000},
+        "rule": "triangular kernels: upper/lower A (n <= 24 quick / 40) with unit diagonal entries taken from the ring's units (+-1; +-1,+-i over Z[i]; 2, 1/2, -3/7.. over Q; any non-zero over F_p), random off-diagonal entries, "
+                "explicit stored zeros injected through From<CscMatrix>, right-hand sides with 0..300 columns (so one worker solves many columns in a row) -> A X = Y (and X = own substitution), X A = Y, A A^-1 = I, vector solve; "
+                "Schur: M with a leading r x r such block, r from 0 to min(m,n) -> S = D - C A^-1 B (own substitution), F_tgt M B_src = S, F B = I on both sides, F_tgt M = S F_src, M B_src = B_tgt S; "
+                "dir_sum_decomp: scrambled block-diagonal integer matrices with empty rows/columns, with and without stored zeros -> permuted matrix (by definition of the returned permutations) = block sum padded with zeros, "
+                "block count = own connected-component count when no zeros are stored; all over rayon pools of 1,2,4,16 threads reused for short call histories, with hook-injected delays at column start; "
+                "rings i64, BigInt, Ratio<i64|BigInt>, FF<5>, FF<7>, GaussInt<i64>; non-trivial = >= 2 columns on one worker or n >= 2 (triangular), r >= 1 (Schur), >= 2 planted blocks (decomp)",
+        "assumptions": COMMON_ASSUME + [
+            "the scratch-vector residue reported by the ColDone hook is recorded as a diagnostic counter only; the verdict is the solved system itself (a residue that matters corrupts a later column on the same worker, which the product check sees)",
+            "thread schedules are sampled; evidence reports the maximum number of columns one worker solved in a row",
+        ],
+        "technique": "reference-model monitor under varying thread pools and hook-injected delays: solve/Schur/decomposition results re-multiplied and re-derived by own dense exact arithmetic; union-find component oracle for block splitting",
+        "level_text": "Exploration: hundreds of thousands of kernel calls over seven rings, four pool sizes and injected delays; every identity in the statement is recomputed exactly by the oracle, including the one-thread/many-thread agreement (the solution is unique, so equality with the own substitution solution decides both). Right level: input x schedule property with an exact judge.",
+        "level_note": "Trusts oracle substitution and dense products; schedules sampled, not enumerated.",
+    },
     "C14": {
         "budget_s": {"quick": 60, "thorough": 900},
         "floor": {"quick": 50000, "thorough": 1000000},
